@@ -52,6 +52,27 @@ pub struct SeqCfg {
     pub uni_streams: bool,
     /// appended to the family label in signatures
     pub suffix: &'static str,
+    /// 0: fresh queue; 1: the history starts after enough add/drop churn to
+    /// leave a reclamation epoch pending (a non-initial state of the manager)
+    pub pre: u8,
+}
+
+fn pre_ops(c: &SeqCfg) -> Vec<Op> {
+    let mut v = Vec::new();
+    if c.pre == 1 {
+        if c.qc.fl == Flavour::B {
+            for _ in 0..6 {
+                v.push(opd(AddStream, 1, 6));
+                v.push(op(DropH, 6));
+            }
+        } else {
+            for _ in 0..22 {
+                v.push(opd(CloneH, 1, 6));
+                v.push(op(DropH, 6));
+            }
+        }
+    }
+    v
 }
 
 impl MState {
@@ -422,6 +443,10 @@ fn run_history(
     let live0 = valloc::live();
     let ctx = Ctx::new(c.qc);
     let _ = rt::seq_call(|| ctx.create());
+    for o in pre_ops(c) {
+        let _ = rt::seq_call(|| ctx.exec(MAIN, &o));
+    }
+    ctx.hist.lk().clear();
     let mut kinds = Vec::new();
     let mut completed = true;
     for o in ops {
@@ -695,7 +720,10 @@ impl<'a> Dfs<'a> {
             }
             self.st.find(
                 "C09",
-                format!("C09|model-mismatch|op={:?}|handle={}|expected={}|got={}", last.k, kind, exp, got),
+                format!(
+                    "C09|model-mismatch|op={:?}|handle={}|expected={}|got={}{}",
+                    last.k, kind, exp, got, self.c.suffix
+                ),
                 hs,
                 detail.clone(),
             );
@@ -806,7 +834,15 @@ fn configs(prop: &str, tier: Tier) -> Vec<SeqCfg> {
                 blocking: matches!(prop, "C09" | "C15"),
                 uni_streams: prop == "C05" && fl == Flavour::B,
                 suffix: "",
+                pre: 0,
             });
+            if matches!(prop, "C09" | "C13" | "C15") && cap == 1 {
+                let mut c3 = *v.last().unwrap();
+                c3.pre = 1;
+                c3.depth -= 1;
+                c3.suffix = "+after-churn";
+                v.push(c3);
+            }
             if prop == "C05" && fl == Flavour::M && fut && cap <= 2 {
                 // a second stream on a move-out queue (MPMCFutUniReceiver::add_stream_with)
                 let mut c2 = *v.last().unwrap();
@@ -838,6 +874,7 @@ fn pump(st: &mut SeqStats, fl: Flavour, fut: bool, cap: u64, label: &str) {
         blocking: false,
         uni_streams: false,
         suffix: "",
+        pre: 0,
     };
     // base pump: 3 rounds of (N+1 sends, N+1 receives)
     let mut base: Vec<Op> = Vec::new();
@@ -934,7 +971,7 @@ fn churn(st: &mut SeqStats, fl: Flavour, fut: bool, cycles: usize, early_drop: b
         "{}{}|cycle={}|early-drop={}",
         if fl == Flavour::B { "bcast" } else { "mpmc" },
         if fut { "-fut" } else { "" },
-        ["clone-recv", "add-stream", "clone-sender", "single-multi"][kind],
+        ["clone-recv", "add-stream", "clone-sender", "single-multi", "clone-sender-after-receivers-left"][kind],
         early_drop
     );
     if kind == 1 && fl == Flavour::M {
@@ -953,6 +990,10 @@ fn churn(st: &mut SeqStats, fl: Flavour, fut: bool, cycles: usize, early_drop: b
         run(opd(CloneH, 1, 5));
         run(op(DropH, 5));
     }
+    if kind == 4 {
+        // only senders stay alive and keep operating
+        run(op(DropH, 1));
+    }
     let mut plateau: Vec<(usize, isize, usize)> = Vec::new();
     let marks = [cycles / 4, cycles / 2, (3 * cycles) / 4, cycles];
     let mut val = 1;
@@ -966,7 +1007,7 @@ fn churn(st: &mut SeqStats, fl: Flavour, fut: bool, cycles: usize, early_drop: b
                 run(opd(AddStream, 1, 4));
                 run(op(DropH, 4));
             }
-            2 => {
+            2 | 4 => {
                 run(opd(CloneH, 0, 2));
                 run(op(DropH, 2));
             }
@@ -978,7 +1019,9 @@ fn churn(st: &mut SeqStats, fl: Flavour, fut: bool, cycles: usize, early_drop: b
         // the fixed handles keep operating
         run(opv(TrySend, 0, val));
         val += 1;
-        run(op(TryRecv, 1));
+        if kind != 4 {
+            run(op(TryRecv, 1));
+        }
         ctx.hist.lk().clear();
         if std::env::var("MQV_DEBUG").is_ok() && i % 10 == 0 {
             let (blocks, bytes) = rt::crate_live();
@@ -1115,7 +1158,10 @@ pub fn main(prop: &str, tier: Tier, si: usize, sk: usize) {
             for fut in [false, true] {
                 for &cy in sizes {
                     for early in [false, true] {
-                        for kind in 0..4 {
+                        for kind in 0..5 {
+                            if kind == 4 && early {
+                                continue;
+                            }
                             jobs.push((fl, fut, cy, early, kind));
                         }
                     }
@@ -1177,9 +1223,12 @@ pub fn replay(path: &str) {
                     uni_streams: true,
                     suffix: if sig.contains("+second-stream-via-add_stream_with") {
                         "+second-stream-via-add_stream_with"
+                    } else if sig.contains("+after-churn") {
+                        "+after-churn"
                     } else {
                         ""
                     },
+                    pre: sig.contains("+after-churn") as u8,
                 };
                 // the history must be well-formed for this family
                 let ok = std::panic::catch_unwind(|| {
